@@ -54,6 +54,12 @@ class TaggedConnClosed(_BotoConnClosed):
         self.tag = tag
 
 
+class TaggedBrokenPipe(BrokenPipeError):
+    def __init__(self, tag):
+        super().__init__(32, tag)
+        self.tag = tag
+
+
 class TaggedTimeout(socket.timeout):
     def __init__(self, tag):
         super().__init__(tag)
